@@ -89,6 +89,43 @@ def matrix(ids):
             json.dump(meta, open(mp, "w"), indent=1)
             print(mid, "own=%s" % (meta["property"] in caught), caught)
 
+def verify_one(args):
+    mid, binary = args
+    d = os.path.join(SEED, mid)
+    meta = json.load(open(d + "/meta.json"))
+    work = tempfile.mkdtemp(prefix="mvseed-")
+    try:
+        repo = work + "/repo"; home = work + "/home"
+        os.makedirs(home)
+        sh("rsync -a --exclude .git /repo/ %s/" % repo)
+        shutil.copy(ROOT + "/known_findings.json", home + "/known_findings.json")
+        r = sh("patch -p1 -s < %s/patch.diff" % d, cwd=repo)
+        if r.returncode != 0:
+            return mid, None, "patch does not apply"
+        lost = []
+        for p in meta["caught_by"]:
+            env = dict(os.environ, MVCHECK_REPO=repo, MVCHECK_HOME=home)
+            r = subprocess.run([binary, p, "--tier", "quick"], capture_output=True, text=True, env=env)
+            if not (r.returncode == 1 and "VIOLATION property=" + p in r.stdout):
+                lost.append(p)
+        return mid, lost, ""
+    finally:
+        shutil.rmtree(work, ignore_errors=True)
+
+def verify(binary, ids):
+    """re-runs, for every seeded change, the checks recorded as catching it (regression test of the checker)"""
+    ids = ids or sorted(i for i in os.listdir(SEED) if os.path.isdir(os.path.join(SEED, i)))
+    bad = 0
+    with cf.ThreadPoolExecutor(max_workers=6) as ex:
+        for mid, lost, note in ex.map(verify_one, [(i, binary) for i in ids]):
+            if lost is None:
+                print(mid, "ERROR", note); bad += 1
+            elif lost:
+                own = json.load(open(os.path.join(SEED, mid, "meta.json")))["property"]
+                print(mid, "NO LONGER CAUGHT BY", lost, "(own property!)" if own in lost else "")
+                bad += 1
+    print("verified", len(ids), "regressions", bad)
+
 def index():
     rows = []
     for mid in sorted(os.listdir(SEED)):
@@ -112,3 +149,4 @@ if __name__ == "__main__":
     if cmd == "store": store()
     elif cmd == "matrix": matrix(sys.argv[2:])
     elif cmd == "index": index()
+    elif cmd == "verify": verify(sys.argv[2], sys.argv[3:])
